@@ -1,4 +1,4 @@
-CONSTANTS Wide = FALSE MaxRow = 6 MaxCol = 5 Depth = 3 Family = "rich" Gen = FALSE EmitReplay = FALSE
+CONSTANTS Wide = FALSE MaxRow = 6 MaxCol = 5 Depth = 3 Family = "all" Gen = FALSE EmitReplay = FALSE
           MediaKey = "content" ChartCache = "tolerant"
 SPECIFICATION MCSpec
 VIEW View
